@@ -231,7 +231,7 @@ func c01(c *Ctx) {
 	n += elementHeaderRules(c)
 	n += sizeSibling(c)
 	n += profileDispatch(c)
-	r.Floor("C01 layout/sibling rows", n, 34)
+	r.Floor("C01 layout/sibling rows", n, 28)
 	hu := p.Func("rtp.(*Header).Unmarshal")
 	pu := p.Func("rtp.(*Packet).Unmarshal")
 	c.wrapScope = map[string]bool{"rtp.(*Header).Unmarshal": true, "rtp.(*Packet).Unmarshal": true}
@@ -278,7 +278,7 @@ func c03(c *Ctx) {
 	}
 	n += viewIdentity(c)
 	n += profileDispatch(c)
-	r.Floor("C03 rows", n, 45)
+	r.Floor("C03 rows", n, 38)
 	np := presenceRule(c, "rtp.(*Packet).Unmarshal", []presRow{{"Header.Padding", []string{"PaddingSize"}}})
 	np += presenceRule(c, "rtp.(*Header).Unmarshal", []presRow{{"Extension", []string{"ExtensionProfile"}}})
 	r.Floor("C03 presence rows", np, 2)
